@@ -1,6 +1,8 @@
 """K12: billiard.einfo -- the recursion guard of Traceback.__init__, DEFAULT_MAX_FRAMES,
 the truncation marker, and the pickling protocol (`__reduce__`) of the stand-in classes;
-billiard.pool.MaybeEncodingError -- constructor shape and whether it defines `__reduce__`.
+billiard.pool.MaybeEncodingError -- constructor shape, whether it defines `__reduce__`, and (if so) the
+body of `__reduce__` and of the rebuild function it names, matched statement by statement and emitted
+as data (`mee_reduce_attrs`, `mee_rebuild_sets`, `mee_rebuild_init`) that EInfoProofs interprets.
 
 Bespoke fail-closed generator (EXTRA_GENERATORS): Traceback.__init__ calls itself and
 copies attributes of foreign objects, which is outside pykernel's statement subset, so the
@@ -83,6 +85,113 @@ def _reduce_is_new_dict(tree, cname):
     want = 'return (%s.__new__, (%s,), self.__dict__)' % (cname, cname)
     _expect(len(body) == 1 and _u(body[0]) == want,
             '%s.__reduce__ is not `%s`' % (cname, want))
+
+
+def _mee_reduce(ptree, mee):
+    """MaybeEncodingError.__reduce__ and the module-level function it names, statement by statement
+    (fail closed).  Accepted:
+
+        def __reduce__(self):
+            return F, (self.a0, ..., self.an)          # a 2-tuple: no state, no iterators
+
+        def F(p0, ..., pn):                            # module level, positional parameters only
+            v = MaybeEncodingError.__new__(MaybeEncodingError)
+            v.<name> = p_k          (or  v.x, v.y = p_i, p_j)      # any number, each name once
+            Exception.__init__(v, p_k, ...)                        # exactly once
+            return v
+
+    Returns ([a0..an], [(name, k)..] in program order, [k..] of the __init__ call, F's name); the
+    *meaning* (that this restores args and __dict__) is not decided here but proved in Coq about the
+    emitted data (EInfoProofs.gen_mee_rebuild)."""
+    def bad(msg):
+        raise TranslateError('billiard/pool.py: MaybeEncodingError.__reduce__: ' + msg)
+
+    red = [n for n in mee.body if isinstance(n, ast.FunctionDef) and n.name == '__reduce__']
+    if len(red) != 1:
+        bad('defined %d times' % len(red))
+    red = red[0]
+    ra = red.args
+    if [x.arg for x in ra.args] != ['self'] or ra.vararg or ra.kwarg or ra.kwonlyargs or ra.posonlyargs \
+            or red.decorator_list:
+        bad('signature is not __reduce__(self)')
+    body = _strip_doc(red.body)
+    if not (len(body) == 1 and isinstance(body[0], ast.Return) and isinstance(body[0].value, ast.Tuple)
+            and len(body[0].value.elts) == 2):
+        bad('body is not a single `return (function, (args...))`: `%s`'
+            % '; '.join(_u(s) for s in body))
+    fn, argt = body[0].value.elts
+    if not isinstance(fn, ast.Name):
+        bad('the callable `%s` is not a module-level function name' % _u(fn))
+    if not isinstance(argt, ast.Tuple):
+        bad('the argument tuple `%s` is not a tuple display' % _u(argt))
+    red_attrs = []
+    for e in argt.elts:
+        if not (isinstance(e, ast.Attribute) and isinstance(e.value, ast.Name) and e.value.id == 'self'
+                and isinstance(e.ctx, ast.Load)):
+            bad('argument `%s` is not an attribute of self' % _u(e))
+        red_attrs.append(e.attr)
+    defs = [n for n in ptree.body if isinstance(n, (ast.FunctionDef, ast.AsyncFunctionDef, ast.ClassDef))
+            and n.name == fn.id]
+    rebound = [n for n in ast.walk(ptree) if isinstance(n, ast.Name) and n.id == fn.id
+               and isinstance(n.ctx, (ast.Store, ast.Del))]
+    if not (len(defs) == 1 and isinstance(defs[0], ast.FunctionDef) and not rebound
+            and not defs[0].decorator_list):
+        bad('`%s` is not exactly one plain module-level function' % fn.id)
+    f = defs[0]
+    fa = f.args
+    params = [x.arg for x in fa.args]
+    if fa.vararg or fa.kwarg or fa.kwonlyargs or fa.posonlyargs or fa.defaults or len(set(params)) != len(params):
+        bad('%s must take plain positional parameters' % f.name)
+    if len(params) != len(red_attrs):
+        bad('%s takes %d parameters but __reduce__ passes %d' % (f.name, len(params), len(red_attrs)))
+    fb = _strip_doc(f.body)
+    if len(fb) < 2:
+        bad('%s: body too short' % f.name)
+    first, last = fb[0], fb[-1]
+    if not (isinstance(first, ast.Assign) and len(first.targets) == 1 and isinstance(first.targets[0], ast.Name)
+            and _u(first.value) == 'MaybeEncodingError.__new__(MaybeEncodingError)'):
+        bad('%s does not start with `obj = MaybeEncodingError.__new__(MaybeEncodingError)`: `%s`'
+            % (f.name, _u(first)))
+    v = first.targets[0].id
+    if v in params:
+        bad('%s: the new object is bound to a parameter name' % f.name)
+    if not (isinstance(last, ast.Return) and isinstance(last.value, ast.Name) and last.value.id == v):
+        bad('%s does not end with `return %s`: `%s`' % (f.name, v, _u(last)))
+
+    def param(e):
+        if not (isinstance(e, ast.Name) and e.id in params):
+            bad('%s: `%s` is not a parameter' % (f.name, _u(e)))
+        return params.index(e.id)
+
+    def target(t):
+        if not (isinstance(t, ast.Attribute) and isinstance(t.value, ast.Name) and t.value.id == v):
+            bad('%s: assignment target `%s` is not an attribute of %s' % (f.name, _u(t), v))
+        return t.attr
+
+    sets, inits = [], []
+    for st in fb[1:-1]:
+        if isinstance(st, ast.Assign) and len(st.targets) == 1:
+            t, val = st.targets[0], st.value
+            if isinstance(t, ast.Tuple):
+                if not (isinstance(val, ast.Tuple) and len(val.elts) == len(t.elts)):
+                    bad('%s: unpacking assignment `%s` is not tuple = tuple of equal length' % (f.name, _u(st)))
+                ks = [param(e) for e in val.elts]          # right-hand side is evaluated first
+                sets += [(target(tt), k) for tt, k in zip(t.elts, ks)]
+            else:
+                sets.append((target(t), param(val)))
+        elif isinstance(st, ast.Expr) and isinstance(st.value, ast.Call) \
+                and _u(st.value.func) in ('Exception.__init__', 'BaseException.__init__') \
+                and not st.value.keywords and st.value.args \
+                and isinstance(st.value.args[0], ast.Name) and st.value.args[0].id == v:
+            inits.append([param(e) for e in st.value.args[1:]])
+        else:
+            bad('%s: statement `%s` is not understood' % (f.name, _u(st).split('\n')[0]))
+    if len(inits) != 1:
+        bad('%s must call Exception.__init__(%s, ...) exactly once (found %d)' % (f.name, v, len(inits)))
+    names = [a for a, _ in sets]
+    if len(set(names)) != len(names):
+        bad('%s assigns an attribute twice: %r' % (f.name, names))
+    return red_attrs, sets, inits[0], f.name
 
 
 def gen_einfo(repo):
@@ -224,13 +333,30 @@ def gen_einfo(repo):
         raise TranslateError('billiard/pool.py: MaybeEncodingError.__init__ body changed: %r' % mb)
     special = sorted(n.name for n in mee.body if isinstance(n, ast.FunctionDef)
                      and n.name in ('__reduce__', '__reduce_ex__', '__getstate__', '__setstate__',
-                                    '__getnewargs__', '__new__'))
+                                    '__getnewargs__', '__getnewargs_ex__', '__new__'))
     if special not in ([], ['__reduce__']):
         raise TranslateError('billiard/pool.py: MaybeEncodingError defines %r; only an added '
                              '__reduce__ is understood' % special)
     out.append('(* MaybeEncodingError.__init__ stores repr(exc), repr(value) and passes them to')
     out.append('   Exception.__init__ (checked); does the class define its own __reduce__? *)')
-    out.append('Definition mee_has_reduce : bool := %s.' % ('true' if special else 'false'))
+    if not special:
+        out.append('Definition mee_has_reduce : bool := false.')
+        red_attrs, sets, init_idx = [], [], []
+    else:
+        red_attrs, sets, init_idx, fname = _mee_reduce(ptree, mee)
+        out.append('(* the BODY of __reduce__ and of the function it names were matched statement by')
+        out.append('   statement (any other shape is a translator error):')
+        out.append('     __reduce__(self): return (%s, (%s))' % (fname, ', '.join('self.' + a for a in red_attrs)))
+        out.append('     %s(p0, ..): obj = MaybeEncodingError.__new__(MaybeEncodingError); obj.<name> = p_k ...;' % fname)
+        out.append('     Exception.__init__(obj, p_k ...); return obj *)')
+        out.append('Definition mee_has_reduce : bool := true.')
+    out.append('(* attributes of self that __reduce__ passes, in order, to the rebuild function *)')
+    out.append('Definition mee_reduce_attrs : list (list Z) := [%s].' % '; '.join(_codes(a) for a in red_attrs))
+    out.append('(* the rebuild function: obj.<name> = parameter #k, in program order *)')
+    out.append('Definition mee_rebuild_sets : list (list Z * nat) := [%s].'
+               % '; '.join('(%s, %d%%nat)' % (_codes(a), k) for a, k in sets))
+    out.append('(* ... and Exception.__init__(obj, parameter #k, ...) *)')
+    out.append('Definition mee_rebuild_init : list nat := [%s].' % '; '.join('%d%%nat' % k for k in init_idx))
     return '\n'.join(out) + '\n'
 
 
